@@ -10,6 +10,7 @@ import DL.Model.AmpGen
 import DL.Model.Perm
 import DL.Model.ModelLex
 import DL.Model.GooFit
+import DL.Model.DecRead
 namespace DL
 open Sexp
 
@@ -279,5 +280,37 @@ def encEmitErr : EmitErr → Sexp
   | .unknownLineshape l => tag "err" [.atom "UnknownLineshape", .atom l]
   | .perms => tag "err" [.atom "RuntimeError"]
   | .lTooLarge => tag "err" [.atom "NotImplementedError"]
+
+/-! ### statements back to the wire -/
+
+def encParam : Param → Sexp
+  | .num l => .list [.atom "num", .atom l]
+  | .word w => .list [.atom "word", .atom w]
+
+def encModelRef : ModelRef → Sexp
+  | .alias l => .list [.atom "alias", .atom l]
+  | .named n none => .list [.atom "named", .atom n, .atom "N"]
+  | .named n (some ps) => .list [.atom "named", .atom n, .list (ps.map encParam)]
+
+def encDLine (l : DLine) : Sexp := .list [.atom l.bf, strs l.ds, bool l.photos, encModelRef l.model]
+
+def encStmt : Stmt → Sexp
+  | .define n v => .list [.atom "define", .atom n, .atom v]
+  | .particleDef n m none => .list [.atom "particle_def", .atom n, .atom m, .atom "N"]
+  | .particleDef n m (some w) => .list [.atom "particle_def", .atom n, .atom m, .list [.atom w]]
+  | .pythia k a b v => .list [.atom "pythia", .atom k, .atom a, .atom b, encParam v]
+  | .jetset l v => .list [.atom "jetset", .atom l, .atom v]
+  | .lsDef k n => .list [.atom "ls_def", .atom k, .atom n]
+  | .incFactor k n y => .list [.atom "inc_factor", .atom k, .atom n, bool y]
+  | .setLsBW n v => .list [.atom "setlsbw", .atom n, .atom v]
+  | .setLsPW a b c v => .list [.atom "setlspw", .atom a, .atom b, .atom c, .atom v]
+  | .cdecay n => .list [.atom "cdecay", .atom n]
+  | .alias a b => .list [.atom "alias", .atom a, .atom b]
+  | .chargeConj a b => .list [.atom "chargeconj", .atom a, .atom b]
+  | .changeMass k n v => .list [.atom "changemasslimit", .atom k, .atom n, .atom v]
+  | .globalPhotos y => .list [.atom "global_photos", bool y]
+  | .decay m ls => .list [.atom "decay", .atom m, .list (ls.map encDLine)]
+  | .copyDecay a b => .list [.atom "copydecay", .atom a, .atom b]
+  | .modelAlias n m => .list [.atom "model_alias", .atom n, encModelRef m]
 
 end DL
